@@ -40,15 +40,22 @@ def _worker(args):
     try:
         ctx = mod.make_ctx(widx, tier, opts)
         state = {}
+        shrink_budget = 40 if tier == "quick" else 150
 
         @hseed(sd * 1000 + widx)
         @settings(max_examples=ncases, database=None, deadline=None, derandomize=False, report_multiple_bugs=False,
                   suppress_health_check=list(HealthCheck), phases=[Phase.generate, Phase.shrink])
         @given(mod.strategy(ctx))
         def prop(case):
+            # shrinking budget: once it is used up every further candidate "passes", so the shrinker stops quickly;
+            # the smallest failing case seen so far is kept in state["last"]
+            if "t_fail" in state and time.time() - state["t_fail"] > shrink_budget:
+                state["cut"] = True
+                return
             try:
                 mod.run_case(ctx, case, ev)
             except CaseFailure as cf:
+                state.setdefault("t_fail", time.time())
                 state["last"] = (case, cf)
                 raise
 
@@ -57,8 +64,8 @@ def _worker(args):
         except CaseFailure:
             case, cf = state["last"]
             res["failure"] = mod.describe_failure(ctx, case, cf)
-        except Exception as e:  # generator / harness error: not a verdict
-            if "last" in state and isinstance(e.__cause__, CaseFailure):
+        except Exception:  # Flaky (shrink budget cut) or a generator / harness error
+            if "last" in state:
                 case, cf = state["last"]
                 res["failure"] = mod.describe_failure(ctx, case, cf)
             else:
